@@ -54,8 +54,7 @@ rule(r"^format::parse::parse_rfc2822$", "overflow", r"Add\(year,(2000|1900)\)", 
 rule(r"^format::parse::parse_rfc3339$", "str-index", r"index\(&s,RangeFrom\)", "first byte matched ASCII 't'/'T'/' ' resp. starts_with('.')")
 rule(r"^format::parse::parse_rfc3339_relaxed$", "str-(index|boundary)", r"index\(&arg2,RangeFrom\)", "first byte matched ASCII 't'/'T'/' '; resp. s.len() >= 3 and the first three bytes equal \"UTC\" ignoring ASCII case")
 rule(r"^format::parse::parse_rfc3339_relaxed$", "bounds", r"index\(&as_bytes\(&arg2\),RangeTo\)", "guarded by s.len() >= 3 (short-circuit &&)")
-rule(r"^format::formatting::write_rfc3339$", "panic", r"entered unreachable code", "SecondsFormat::__NonExhaustive is doc(hidden) and documented not to be used; every other variant has an arm")
-rule(r"^format::parsed::Parsed::to_naive_datetime_with_offset$", "panic", r"entered unreachable code", "the arm is reached only with second = 60 unset combinations excluded by the preceding match on (self.second, ...) (0..=59 | 60 | None are the only values set_second accepts)")
+rule(r"^format::parsed::Parsed::to_naive_datetime_with_offset$", "panic", r"entered unreachable code", "the final `else` is entered only when `date` or `time` is an Err (the two preceding arms cover Ok/Ok and the timestamp case), so `date?` or `time?` returns before the unreachable!() is evaluated")
 rule(r"^format::parsed::Parsed::to_naive_date::\{closure#2\}::\{closure#[01]\}$", "lossy-cast", r"v as i32", "v is week_from_sun / week_from_mon <= 53 by the setters; for a hand-built Parsed a wrapped value only fails the equality test that follows")
 # ---- naive::date / internals (packed invariants; tables checked by C01) -------------------------
 rule(r"^naive::date::NaiveDate::from_yof$", "(panic|invariant)", r".*", "callers pass yof built from a valid (year, ordinal in 1..=366, YearFlags): ordinal-leap lane > 1, <= MAX_OL, flags != 0; checked by the debug assertions in every test run and by C01's layout rules")
@@ -69,9 +68,9 @@ rule(r"^naive::internals::Mdf::ordinal$", "overflow", r"Sub\(mdl,", "MDL_TO_OL[m
 rule(r"^naive::internals::YearFlags::from_year_mod_400$", "bounds", r"index\(year as usize\)", "callers pass year.rem_euclid(400) or the year_mod_400 of cycle_to_yo, both in 0..400")
 rule(r"^naive::date::cycle_to_yo$", "overflow", r"Sub\(year_mod_400,1\)", "ordinal0 < YEAR_DELTAS[year_mod_400] implies year_mod_400 >= 1 because YEAR_DELTAS[0] = 0 (C01 TBL.year_deltas)")
 rule(r"^naive::date::yo_to_cycle$", "overflow", r"Sub\(Add\(Add", "ordinal >= 1 for every valid date")
-rule(r"^naive::time::NaiveTime::overflowing_add_signed$", "(overflow|invariant)", r".*frac,frac_to_add.*", "in this branch frac >= 10^9 and rhs_frac keeps frac + frac_to_add within [0, 2*10^9): guarded by the two comparisons against 2_000_000_000 - frac / frac - 1_000_000_000 just above")
+rule(r"^naive::time::NaiveTime::overflowing_add_signed$", "(overflow|invariant)", r".*frac,frac_to_add.*", "in this branch frac >= 10^9, secs_to_add == 0 and not (frac_to_add > 0 && frac >= 2*10^9 - frac_to_add): the upper bound frac + frac_to_add < 2*10^9 comes from that comparison, the lower bound > 0 from subsec_nanos() > -10^9")
 # ---- time_delta -------------------------------------------------------------------------------
-rule(r"^time_delta::TimeDelta::checked_div$", "(overflow|lossy-cast|invariant)", r".*", "|secs / rhs| <= |secs| and |carry * 10^9 / rhs| < 10^9, so nanos stays within (-2*10^9, 2*10^9) before the +-1 s normalisation restores 0 <= nanos < 10^9 and |secs| within the range")
+rule(r"^time_delta::TimeDelta::checked_div$", "(overflow|lossy-cast|invariant)", r".*", "|secs / rhs| <= |secs| and |carry * 10^9 / rhs| < 10^9, so the sum of the two nanosecond terms stays within (-10^9, 10^9) before the single +-1 s normalisation, which restores 0 <= nanos < 10^9 and |secs| within the range")
 rule(r"^time_delta::TimeDelta::from_std$", "lossy-cast", r"as_secs", "as_secs() > MAX.secs is rejected just above (Duration::as_secs is pure)")
 rule(r"^time_delta::TimeDelta::neg$", "invariant", r".*", "-secs - 1 with nanos = 10^9 - nanos when nanos != 0 (else -secs, 0): within the symmetric range because MIN = -MAX")
 # ---- operators reached from the rounding helpers -----------------------------------------------
@@ -90,7 +89,9 @@ rule(r"^offset::local::inner::offset::\{closure#0\}$", "borrow", r"borrow_mut", 
 rule(r"^offset::local::tz_info::rule::AlternateTime::find_local_time_type_from_local$", "overflow", r".*", "current_year is a NaiveDateTime year (|year| < 2^18), so |unix_time| < 2^44 and the offsets/times are < 2^31")
 rule(r"^offset::local::tz_info::rule::RuleDay::transition_date$", "(overflow|bounds)", r".*", "month is validated to 1..=12 by RuleDay::month_weekday; binary_search on CUMUL_DAY_IN_MONTHS (first cell 0) never returns Err(0)")
 rule(r"^offset::local::tz_info::rule::days_since_unix_epoch$", "(overflow|bounds)", r".*", "month is validated to 1..=12 by the callers")
-rule(r"^offset::local::tz_info::timezone::TimeZoneRef::<'a>::(find_local_time_type|find_local_time_type_from_local|unix_time_to_unix_leap_time)$", "bounds", r".*",
+rule(r"^offset::local::tz_info::timezone::TimeZoneRef::<'a>::unix_time_to_unix_leap_time$", "bounds", r".*",
+     "the index i is guarded by the loop condition `i < self.leap_seconds.len()` of the enclosing while loop")
+rule(r"^offset::local::tz_info::timezone::TimeZoneRef::<'a>::(find_local_time_type|find_local_time_type_from_local)$", "bounds", r".*",
      "indices were validated by TimeZoneRef::validate when the zone was built (local_time_types non-empty, every transition index < len, leap seconds sorted); binary_search results are < len")
 # ---- serde config -----------------------------------------------------------------------------
 rule(r"^datetime::DateTime::<Tz>::timestamp_(micros|millis)$", "overflow", r".*", "|timestamp()| <= 8.3 * 10^12 s for every representable date (year within +-262143), so the product fits i64")
@@ -112,7 +113,7 @@ rule(T + r"timezone::TimeZoneRef::<'a>::validate$", "(bounds|overflow)", r".*", 
 rule(r"^<T as round::SubsecRound>::round_subsecs$", "overflow", r"Sub\(span,delta_down\)", "delta_down = nanosecond() % span < span")
 rule(r"^<format::ParseError as std::fmt::Display>::fmt$", "panic", r"unreachable", "ParseErrorKind::__Nonexhaustive is never constructed")
 rule(r"^<naive::date::NaiveDate as std::default::Default>::default$", "unwrap", r"from_ymd_opt\(1970,1,1\)", "constant, valid date (C01 CYCLE.from_ymd covers its year class)")
-rule(r"^<naive::date::NaiveDate(Days|Weeks)Iterator as std::iter::Iterator>::size_hint$", "lossy-cast", r"exact_size as usize", "self.value <= NaiveDate::MAX, so the distance to MAX is >= 0")
+rule(r"^<naive::date::NaiveDate(Days|Weeks)Iterator as std::iter::Iterator>::size_hint$", "lossy-cast", r"exact_size as usize", "for a date within NaiveDate::MIN..=MAX the distance to MAX is >= 0. (A date beyond MAX can only be obtained by a foreign TimeZone implementation that keeps the possibly out-of-range wall-clock argument chrono hands to offset_from_local_datetime; for such a value the hint wraps to usize::MAX without panicking. No clause of C03/C15 covers size_hint on such a value.)")
 rule(r"^<naive::internals::Mdf as std::fmt::Debug>::fmt$", "invariant", r"YearFlags", "debug output only; the flags lane of an Mdf comes from a YearFlags")
 rule(r"^<time_delta::TimeDelta as std::fmt::Display>::fmt$", "overflow", r"Sub\(figures,1\)", "abs.nanos in 1..10^9 has at most 8 trailing zeros, so figures stays >= 1")
 rule(r"^<time_delta::TimeDelta as std::ops::Add>::add$", "unwrap", r"checked_add", "documented panicking operator (reached from impl Sum, which inherits operator semantics)")
@@ -127,7 +128,7 @@ rule(r"^time_delta::TimeDelta::num_milliseconds$", "overflow", r".*", "|secs| <=
 rule(r"^weekday_set::WeekdaySet::from_array$", "bounds", r"index\(idx\)", "loop guard idx < days.len()")
 rule(r"^datetime::<impl std::convert::From<datetime::DateTime<Tz>> for std::time::SystemTime>::from$", "overflow", r"SystemTime", "|timestamp| <= 8.3 * 10^12 s is within the platform's SystemTime range (i64 seconds on the analysed target)")
 rule(r"^<naive::date::NaiveDate as traits::Datelike>::(day0|month0|ordinal0)$", "overflow", r"Sub\(", "month, day and ordinal of a valid date are >= 1 (C01 CYCLE.dates)")
-rule(r"^traits::Datelike::(num_days_from_ce|year_ce|num_days_in_month)$", "(overflow|lossy-cast|unwrap)", r".*", "default method of the Datelike trait: relies on the trait contract (year within chrono's range, month 1..=12, ordinal 1..=366); the in-crate implementors are range-checked")
+rule(r"^traits::Datelike::(num_days_from_ce|year_ce|num_days_in_month)$", "(overflow|lossy-cast|unwrap)", r".*", "default method of the Datelike trait: every in-crate implementor returns a year within NaiveDate::MIN..=MAX (|year| <= 262143), month 1..=12 and ordinal 1..=366, for which the arithmetic fits i32; assumption: a foreign implementor of Datelike does the same (year() documents no range, and e.g. year() = 1_500_000 would overflow here)")
 rule(r"^traits::Timelike::num_seconds_from_midnight$", "overflow", r".*", "default method of the Timelike trait: relies on the trait contract hour < 24, minute < 60, second < 60")
 
 # ---- calls into documented panickers (kind doc-panic): the panic condition is excluded at the call site -------------
@@ -149,9 +150,9 @@ LOCALE_DATA = ("assumption on the pure-rust-locales tables: d_fmt / d_t_fmt / t_
 rule(r"^format::strftime::StrftimeItems::<'a>::switch_to_locale_str$", "panic", r"locale_str\.is_empty", LOCALE_DATA)
 rule(r"^format::strftime::StrftimeItems::<'a>::switch_to_locale_str$", "unwrap", r"unwrap\(parse_next_item", LOCALE_DATA)
 # ---- SystemTime: platform range ----------------------------------------------------------------------------------
-rule(r"^offset::utc::Utc::now$", "lossy-cast", r"as_secs\(&now\) as i64", "SystemTime stores seconds as i64 on every supported platform, so a duration since the epoch is <= i64::MAX s")
+rule(r"^offset::utc::Utc::now$", "lossy-cast", r"as_secs\(&now\) as i64", "on the analysed target (unix) SystemTime stores seconds as i64, so a duration since the epoch is <= i64::MAX s; assumption: targets whose SystemTime is a u64 Duration (wasm32-unknown-unknown, sgx, uefi) are out of scope")
 rule(r"^<datetime::DateTime<offset::utc::Utc> as std::convert::From<std::time::SystemTime>>::from$", "lossy-cast", r"as_secs\(&duration_since\(_,UNIX_EPOCH\)\.0\) as i64",
-     "SystemTime stores seconds as i64 on every supported platform, so a duration since the epoch is <= i64::MAX s")
+     "on the analysed target (unix) SystemTime stores seconds as i64, so a duration since the epoch is <= i64::MAX s; assumption: targets whose SystemTime is a u64 Duration (wasm32-unknown-unknown, sgx, uefi) are out of scope")
 
 out = []
 todo = []
